@@ -886,7 +886,7 @@ func (fx *FnExec) instr(in ssa.Instruction) error {
 				fx.assume(sEq(app("str_at", app("bytes_str", sv.L[2], sv.L[1]), iv.one()), sSel(sv.L[2], iv.one())))
 			}
 			svc := sv
-			fx.set(x, Val{T: x.Type(), Loc: &Loc{Kind: LElem, Slice: &svc, Idx: iv.one(), ElemT: elemOf(x.X.Type())}})
+			fx.set(x, Val{T: x.Type(), Loc: &Loc{Kind: LElem, Slice: &svc, SliceV: x.X, Idx: iv.one(), ElemT: elemOf(x.X.Type())}})
 		} else if sv.Loc != nil && sv.Loc.Kind == LLocal {
 			// element of a local array
 			if c, ok := x.Index.(*ssa.Const); ok {
